@@ -57,18 +57,28 @@ def obligations(funcs, prefix, what):
                 if new - aliases:
                     aliases |= new
                     changed = True
+        # a parameter / alias that the function later REBINDS to a freshly built value stops being an alias from that statement on (straight-line reading)
+        fresh_from = {}
+        for n in ast.walk(tree):
+            if isinstance(n, ast.Assign) and not is_alias_expr(n.value) and not isinstance(n.value, ast.Name):
+                for t in n.targets:
+                    if isinstance(t, ast.Name) and t.id in aliases:
+                        fresh_from[t.id] = min(fresh_from.get(t.id, n.lineno), n.lineno)
+
+        def live(name, lineno):
+            return name in aliases and not (name in fresh_from and lineno > fresh_from[name])
         bad = []
         for n in ast.walk(tree):
             if isinstance(n, ast.AugAssign):
-                if isinstance(n.target, ast.Name) and n.target.id in aliases and isinstance(n.op, (ast.Add, ast.BitOr)):
+                if isinstance(n.target, ast.Name) and live(n.target.id, n.lineno) and isinstance(n.op, (ast.Add, ast.BitOr)):
                     bad.append("line %d: %s" % (n.lineno, ast.unparse(n)))
-                elif isinstance(n.target, (ast.Attribute, ast.Subscript)) and _root(n.target) in aliases:
+                elif isinstance(n.target, (ast.Attribute, ast.Subscript)) and live(_root(n.target), n.lineno):
                     bad.append("line %d: %s" % (n.lineno, ast.unparse(n)))
-            if isinstance(n, ast.Call) and isinstance(n.func, ast.Attribute) and n.func.attr in MUTATORS and isinstance(n.func.value, ast.Name) and n.func.value.id in aliases:
+            if isinstance(n, ast.Call) and isinstance(n.func, ast.Attribute) and n.func.attr in MUTATORS and isinstance(n.func.value, ast.Name) and live(n.func.value.id, n.lineno):
                 bad.append("line %d: %s" % (n.lineno, ast.unparse(n)[:60]))
             if isinstance(n, (ast.Assign, ast.Delete)):
                 for t in n.targets:
-                    if isinstance(t, (ast.Attribute, ast.Subscript)) and _root(t) in aliases:
+                    if isinstance(t, (ast.Attribute, ast.Subscript)) and live(_root(t), n.lineno):
                         bad.append("line %d: %s" % (n.lineno, ast.unparse(n)[:60]))
         out.append({"id": "%s:%s:mutates-nothing-it-was-given" % (prefix, name), "holds": not bad,
                     "detail": "%s modifies state reachable from its arguments in place (%s): %s" % (name, "; ".join(bad[:3]), what)})
